@@ -10,6 +10,7 @@ from typing import Callable, Iterable, Type
 
 from . import _parser
 from ._data_type_builder import DataTypeBuilder, UndefinedDataTypeError
+from . import _verif_trace
 from ._dsdl import DefinitionVisitor, ReadableDSDLFile
 from ._error import Error, InternalError, InvalidDefinitionError
 from ._serializable import CompositeType, Version
@@ -248,7 +249,11 @@ class DSDLDefinition(ReadableDSDLFile):
         log_prefix = "%s.%d.%d" % (self.full_name, self.version.major, self.version.minor)
         if self._cached_type is not None:
             _logger.debug("%s: Cache hit", log_prefix)
+            if _verif_trace.ENABLED:
+                _verif_trace.emit("read_hit", file=str(self.file_path))
             return self._cached_type
+        if _verif_trace.ENABLED:
+            _verif_trace.emit("read_begin", file=str(self.file_path))
 
         started_at = time.monotonic()
 
@@ -274,6 +279,8 @@ class DSDLDefinition(ReadableDSDLFile):
             _parser.parse(self.text, builder, strict=strict)
 
             self._cached_type = builder.finalize()
+            if _verif_trace.ENABLED:
+                _verif_trace.emit("read_end", file=str(self.file_path), ok=True)
             _logger.info(
                 "%s: Processed in %.0f ms; category: %s, fixed port ID: %s",
                 log_prefix,
@@ -283,11 +290,15 @@ class DSDLDefinition(ReadableDSDLFile):
             )
             return self._cached_type
         except Error as ex:  # pragma: no cover
+            if _verif_trace.ENABLED:
+                _verif_trace.emit("read_end", file=str(self.file_path), ok=False, cls=type(ex).__name__)
             ex.set_error_location_if_unknown(path=self.file_path)
             raise ex
         except (MemoryError, SystemError):  # pragma: no cover
             raise
         except Exception as ex:  # pragma: no cover
+            if _verif_trace.ENABLED:
+                _verif_trace.emit("read_end", file=str(self.file_path), ok=False, cls=type(ex).__name__)
             raise InternalError(culprit=ex, path=self.file_path) from ex
 
     # +-----------------------------------------------------------------------+
@@ -320,6 +331,8 @@ class DSDLDefinition(ReadableDSDLFile):
     @property
     def text(self) -> str:
         if self._text is None:
+            if _verif_trace.ENABLED:
+                _verif_trace.emit("text_load", file=str(self._file_path))
             with open(self._file_path) as f:
                 self._text = str(f.read())
         return self._text
